@@ -15,7 +15,7 @@ CLAIM = dict(
          'every sequence of <= 5 start/characters/end/exit operations (symbolic choice of names, attribute sets and texts from a vocabulary that contains markup '
          'characters) yields a document that expat accepts and that carries exactly the model tree; RLE index elements (decimal, hex and float X values, incl. values a last bit or 1e-10 off the run) expand to the original values.',
     note='Trusted: z3, CrossHair, py2smt with its model of str iteration / ord / dict lookup / str.encode(ascii, xmlcharrefreplace) / f-string numeric reference; '
-         'expat (oracle parser on concrete output). Outside: whole documents produced from log files by ScanHTML, LisToHtml, SVGWriter/Plot (file I/O, numpy): '
+         'expat (oracle parser on concrete output). Outside: whole documents produced from log files by LisToHtml, SVGWriter/Plot (file I/O, numpy), and the numeric content of the RP66V1 HTML summary: '
          'the shared writer, the RLE index writer, the structure of the RP66V1 XML index (entries per table / frame type, run-length entries) and the LAS HTML summary of a bounded family of LAS files are decided.',
 )
 META = dict(
@@ -158,6 +158,12 @@ def obligations(tier):
            ['LAS.LASToHTML.las_file_to_html', 'las_section_to_html', 'las_section_members_to_html_table', 'write_file_array', 'write_forward_index', 'write_file_metadata',
             'common.ToHTML.html_write_table', 'util.XmlWrite.XhtmlStream', 'LAS.core.LASRead.LASRead'],
            harness='C18_las', func='las_html_summary', timeout=170 if q else 600, parts=18, unblock=True, stubs=['scratch files (the converter is path based)']),
+        Ob('rp66v1_html_summary_document', 'ch', 'reference-encoded RP66V1 files (a table whose set type, column label, object name and value contain markup characters and quotes - 6 strings each -, '
+           'channels and frame type named likewise, units from the same strings, 0..3 frame records, 1..2 logical files, one visible record per record or shared, tables sorted or not) through '
+           'ScanHTML.html_scan_RP66V1_file_data_content: the document parses (with the XHTML entity nbsp) and every such string appears unchanged in a heading, link or cell; the table heading gives type and shape',
+           ['RP66V1.ScanHTML.html_scan_RP66V1_file_data_content', 'html_write_body', 'html_write_table_of_contents', 'html_write_EFLR_as_table', '_write_log_pass_content_in_html', '_write_frame_array_in_html',
+            'util.XmlWrite.XhtmlStream', 'RP66V1.core.LogicalFile.LogicalIndex'],
+           harness='C18_scanhtml', func='scan_html', timeout=170 if q else 600, parts=6, unblock=True, stubs=['scratch file for LogicalIndex (path based API)']),
         Ob('rle_float_index_entries_expand', 'ch', 'float X sequences of length 2..5: 4 start values (0.1, 1000, 1.6e12, negative) x 4 strides x per-value deviation from the '
            'extrapolated value (none, one unit in the last place, 1e-10 and 1e-7 relative, a quarter stride)',
            ['RP66V1.IndexXML.xml_rle_write', 'common.Rle.create_rle', 'common.Rle.RLEItem.add/values', 'util.XmlWrite.Element'], harness='C18_xml', func='rle_float_entries',
